@@ -114,8 +114,35 @@ class SymStr:
             return [self]
         return [SymStr(self.chars[:k], k), SymStr(self.chars[k + 1:], i_fold(zi(self.n) - (k + 1)))]
 
+    def _last_sep(self, sep):
+        """Fork on the position of the last occurrence of the 1-character separator (None if absent)."""
+        assert len(sep) == 1
+        code = ord(sep)
+        c = ctx()
+        L = len(self.chars)
+        for k in range(L - 1, -1, -1):
+            cond = b_and(zi(self.n) > k, zi(self.chars[k]) == code,
+                         *[b_or(zi(self.n) <= j, zi(self.chars[j]) != code) for j in range(k + 1, L)])
+            if c.branch(zb_(cond)):
+                return k
+        return None
+
+    def rsplit(self, sep=None, maxsplit=-1):
+        if sep is None or len(sep) != 1 or maxsplit != 1:
+            raise NotImplementedError("SymStr.rsplit supports rsplit(<char>, maxsplit=1)")
+        k = self._last_sep(sep)
+        if k is None:
+            return [self]
+        return [SymStr(self.chars[:k], k), SymStr(self.chars[k + 1:], i_fold(zi(self.n) - (k + 1)))]
+
     def rpartition(self, sep):
-        raise NotImplementedError("SymStr.rpartition")
+        k = self._last_sep(sep)
+        if k is None:
+            return ("", "", self)
+        return (SymStr(self.chars[:k], k), sep, SymStr(self.chars[k + 1:], i_fold(zi(self.n) - (k + 1))))
+
+    def casefold(self):
+        return self.lower()   # identical on the ASCII alphabet of the bound
 
     def partition(self, sep):
         k = self._first_sep(sep)
